@@ -966,12 +966,15 @@ class Table:
             to_pyarrow_compute_expression,
         )
 
+        # Parse (and thereby validate) the filter BEFORE looking at the table:
+        # a malformed filter must raise on an empty table too, not be answered
+        # with a plausible-looking empty result.
+        expressions = parse_filter_dict(filter_dict) if filter_dict else []
+        compute_expr = to_pyarrow_compute_expression(expressions) if expressions else None
+
         data_files = self._get_all_data_files()
         if not data_files:
             return None
-
-        expressions = parse_filter_dict(filter_dict) if filter_dict else []
-        compute_expr = to_pyarrow_compute_expression(expressions) if expressions else None
 
         # File-level pruning via column bounds
         if expressions:
@@ -1094,9 +1097,12 @@ class Table:
             to_pyarrow_compute_expression,
         )
 
-        data_files = self._get_all_data_files()
-
+        # Validate the filter first (see _scan_table): malformed filters raise
+        # even when there is nothing to read.
         expressions = parse_filter_dict(filter) if filter else []
+        compute_expr = to_pyarrow_compute_expression(expressions) if expressions else None
+
+        data_files = self._get_all_data_files()
         if expressions and data_files:
             schema = self._get_current_schema()
             if schema:
@@ -1105,7 +1111,6 @@ class Table:
         if not data_files:
             return
 
-        compute_expr = to_pyarrow_compute_expression(expressions) if expressions else None
         verify = self._resolve_verify_checksums(verify_checksums)
 
         yield from self._iter_file_batches(
